@@ -42,6 +42,7 @@ import (
 //	                                          header hid (on prev) commits to the textbook root of `committed`;
 //	                                          the body delivered with it is the listed transactions;
 //	                                          lie=1 wraps the block in a type whose IsMerkleRootValid says true
+//	["refeed", [body]]                        probe only (never generated): Node.provideBlock, the refeed path
 func init() { register("merkle", runMerkle) }
 
 // symTable maps real hashes to the structural encoding of the symbolic node.
@@ -220,6 +221,24 @@ func runMerkle(c *Case) ([]Obs, any) {
 					blk = lyingBlock{blk}
 				}
 				if err := f.node.ProcessBlock(ctx, blk); err != nil {
+					return finish(ERR)
+				}
+				return finish(OK)
+			case "refeed": // [body]: the refeed path provideBlock on the tip's header with this body (probe, not generated)
+				blocks := f.node.VerifBlocks()
+				held, err := blocks.Header(ctx, blocks.LastHeight())
+				if err != nil || held == nil {
+					return finish(ERR)
+				}
+				mb := wire.NewMsgBlock(held)
+				var hashes []bitcoin.Hash32
+				for _, t := range op.Ints(0) {
+					tx := merkleTx(tu, rel, t)
+					mb.AddTransaction(tx)
+					hashes = append(hashes, *tx.TxHash())
+				}
+				st.addTree(hashes, op.Ints(0))
+				if err := f.node.VerifProvideBlock(ctx, mb, blocks.LastHeight()); err != nil {
 					return finish(ERR)
 				}
 				return finish(OK)
